@@ -104,7 +104,10 @@ type ForeignNode struct {
 
 // Foreign returns the foreign-implementation node of this world.
 func (w *World) Foreign() *ForeignNode {
-	return &ForeignNode{w: w, r: simrt.NewRand(uint64(w.T.Choose(1<<20, "foreign.seed")) + 77)}
+	if w.foreign == nil {
+		w.foreign = &ForeignNode{w: w, r: simrt.NewRand(uint64(w.T.Choose(1<<20, "foreign.seed")) + 77)}
+	}
+	return w.foreign
 }
 
 func (f *ForeignNode) bytes(n int) []byte {
@@ -194,4 +197,29 @@ func (f *ForeignNode) Write(part string, payload []byte) *Rec {
 	_ = json.Unmarshal(doc, &r.DRR)
 	f.w.Recs = append(f.w.Recs, r)
 	return r
+}
+
+// InsertSame makes the foreign node win a creation race: it inserts its own key under exactly the
+// (id, created) the SDK is about to store (the SDK's insert must then be refused and the SDK must
+// adopt the stored key).
+func (f *ForeignNode) InsertSame(id string, created int64, isIK bool) bool {
+	if _, exists := f.w.Store.Rows[id][created]; exists {
+		return false
+	}
+	key := f.bytes(32)
+	if !isIK {
+		doc := refimpl.MakeKeyRecord(created, f.w.KMS.Wrap(key, f.bytes(12)), nil, false)
+		f.w.Store.put("foreign", id, created, doc, -1)
+		f.w.S.Logf("foreign wins race %s@%d", id, created)
+		return true
+	}
+	skc, sk, _ := f.EnsureSK(time.Second, 0, false)
+	if sk == nil {
+		return false
+	}
+	wrapped, _ := refimpl.Seal(sk, f.bytes(12), key)
+	doc := refimpl.MakeKeyRecord(created, wrapped, &refimpl.KeyMeta{KeyID: f.w.SKID(), Created: skc}, false)
+	f.w.Store.put("foreign", id, created, doc, -1)
+	f.w.S.Logf("foreign wins race %s@%d", id, created)
+	return true
 }
